@@ -144,7 +144,8 @@ def c04(tier):
 def c02(tier):
     combos = [(0, 6, 0), (1, 2, 0)] if tier == "quick" else [(0, 6, 0), (0, 12, 0), (1, 2, 0), (1, 3, 1)]
     jobs = [Job("h_c02::delivery", c, dict(S2), budget_s=4000, validate=30) for c in combos]
-    return dict(jobs=jobs, bounds={"history 0": "c1 <- c2 (2 blocks + 2 packs): all 24 delivery orders of the 4 files, second document among k orders with a symbolic value",
+    jobs.append(Job("h_c02::dedup_across_packs", (), dict(S2), budget_s=600, validate=1))
+    return dict(jobs=jobs, bounds={"dedup scenario": "a parentless block whose pack omits an object that is stored only in the pack of another, held-back block (one concrete scenario)", "history 0": "c1 <- c2 (2 blocks + 2 packs): all 24 delivery orders of the 4 files, second document among k orders with a symbolic value",
                                    "history 1": "c1 <- cA, c1 <- cB, {cA,cB} <- cM with c1 pre-delivered: all 720 delivery orders of the remaining 6 files",
                                    "after every delivered file": "refresh; state == recorded state of exactly the causally complete blocks; state == Melda::new on the same storage",
                                    "combos [history, k, symbolic value]": [list(c) for c in combos]},
@@ -168,6 +169,8 @@ def c09(tier):
 def c11(tier):
     combos = [(3, 0), (3, 1)] if tier == "quick" else [(3, 0), (3, 1), (6, 1), (12, 0)]
     jobs = [Job("h_c11::content_addressed", c, dict(S2, digest_len=64), budget_s=3000, validate=30) for c in combos]
+    # the order in which commit collects change records from hash tables may be reversed at one point per path
+    jobs.append(Job("h_c11::content_addressed", (3, 0), dict(S2, digest_len=64, hash_order="two", nd_budget=1), budget_s=3000, validate=20, native_repeats=3))
     jobs.append(Job("h_pack::pack_roundtrip", (1, 1), {"hash_order": "two"}, budget_s=3000, validate=20))
     return dict(jobs=jobs, bounds={"history": "a: commit (metadata with non-ASCII text, a symbolic printable char, nested containers, escapes, empty object, 13-digit integer), commit with empty-object metadata; "
                                               "b melds + refreshes, commits, a melds back; then unstage / refresh / reload / reads",
